@@ -91,6 +91,7 @@ let dop_of = function
   | s -> failwith ("bad division operator " ^ s)
 let rec opd_of = function
   | L [Atom "i"; Atom k] -> OVar (nat_of_int (int_of_string k))
+  | L [Atom "glob"; Atom k] -> OGlob (nat_of_int (int_of_string k))
   | L [Atom "n"; Atom z] -> OLit (z_of_string z)
   | L [Atom "ar"; Atom op; x; y] -> OArith (aop_of op, opd_of x, opd_of y)
   | L [Atom "un"; Atom "neg"; x] -> OUn (UNeg, opd_of x)
@@ -131,6 +132,10 @@ let rec stmt_of = function
   | L (Atom "call" :: Atom "decl" :: Atom f :: args) -> SCall (DDecl, nat_of_int (int_of_string f), List.map opd_of args)
   | L (Atom "call" :: Atom "assign" :: Atom i :: Atom f :: args) ->
     SCall (DAssign (nat_of_int (int_of_string i)), nat_of_int (int_of_string f), List.map opd_of args)
+  | L (Atom "call" :: Atom "assigng" :: Atom g :: Atom f :: args) ->
+    SCall (DAssignG (nat_of_int (int_of_string g)), nat_of_int (int_of_string f), List.map opd_of args)
+  | L [Atom "assg"; Atom g; a] -> SAssignG (nat_of_int (int_of_string g), opd_of a)
+  | L [Atom "assgdiv"; Atom g; Atom op; a; b] -> SAssignGDiv (nat_of_int (int_of_string g), dop_of op, opd_of a, opd_of b)
   | L [Atom "return"] -> SReturn None
   | L [Atom "return"; a] -> SReturn (Some (opd_of a))
   | _ -> failwith "bad statement"
@@ -149,27 +154,34 @@ let run_line (line : string) : string =
   | "run" :: w :: stack :: fuel :: rest ->
     let wz = z_of_int (int_of_string w) in
     (match parse_all rest with
-     | L (Atom "args" :: av) :: fs ->
+     | L (Atom "args" :: av) :: fs0 ->
        let args = List.map (function Atom a -> z_of_string a | _ -> failwith "bad argument") av in
+       let (gi, fs) = (match fs0 with
+           | L (Atom "ginit" :: gv) :: fs -> (List.map (function Atom a -> z_of_string a | _ -> failwith "bad initialiser") gv, fs)
+           | fs -> ([], fs)) in
        let funs = List.map fun_of fs in
        let d = Z.mul (Z.add (Z.add (z_of_int (int_of_string stack)) (z_of_int (List.length args))) (z_of_int 1)) wz in
-       if not (run_ok_b wz funs (z_of_int (int_of_string stack)) (nat_of_int (List.length args))) then "unchecked" else
-       (match icall wz funs (nat_of_fuel (int_of_string fuel)) d O args with
+       if not (run_ok_b wz (nat_of_int (List.length gi)) funs (z_of_int (int_of_string stack)) (nat_of_int (List.length args))) then "unchecked" else
+       (match icall wz funs (nat_of_fuel (int_of_string fuel)) d O args gi with
         | None -> "nofuel"
         | Some (evs, res) ->
           String.concat "\t"
             ((match res with
-              | CRet _ -> "ret"
+              | CRet (_, _) -> "ret"
               | CFault FDivZero -> "fault division_by_zero"
               | CFault FStackOverflow -> "fault stack_overflow")
              :: List.map string_of_z evs))
      | _ -> failwith "bad run line")
   | "prog" :: w :: stack :: rest ->
     let wz = z_of_int (int_of_string w) in
-    let funs = List.map fun_of (parse_all rest) in
+    let (gi, fs) = (match parse_all rest with
+        | L (Atom "ginit" :: gv) :: fs -> (List.map (function Atom a -> z_of_string a | _ -> failwith "bad initialiser") gv, fs)
+        | fs -> ([], fs)) in
+    let funs = List.map fun_of fs in
     let np = match funs with f :: _ -> f.fn_params | [] -> failwith "no entry point" in
+    let ginit g = (let rec nth l k = match l, k with x :: _, O -> x | _ :: r, S k' -> nth r k' | [], _ -> Z0 in nth gi g) in
     String.concat "\t"
-      (List.map (fun d -> string_of_chars (print_dline d)) (state_section (z_of_int (int_of_string stack)) np)
+      (List.map (fun d -> string_of_chars (print_dline d)) (state_section_g (z_of_int (int_of_string stack)) np funs ginit)
        @ ("%section code" :: List.map (fun l -> string_of_chars (print_aline l)) (lower_program wz funs)))
   | w :: np :: rt :: rest ->
     let s0 = is_you_senv (z_of_int (int_of_string w)) (nat_of_int (int_of_string np)) in
